@@ -262,8 +262,28 @@ def rule_copy_shallow(ctx: RuleContext, p: Program, rid: str) -> None:
             shallow = [a for a in walk_no_nested(dc.node) if isinstance(a, ast.Assign) and isinstance(a.value, ast.Call)
                        and (dotted(a.value.func) or '') in ('copy.copy', 'copy') and a.value.args and norm(a.value.args[0]) == dc.params[0]
                        and isinstance(a.targets[0], ast.Name)]
+            # what the copy is built from: a constructor call in __deepcopy__ may be handed deep copies, schema (the field descriptor) and
+            # parameters of __deepcopy__ itself -- never another attribute of self (the owning model, a parent, a store: document state that
+            # the copy would share with the original)
+            owner_bad = None
+            copies = {a.targets[0].id for a in walk_no_nested(dc.node) if isinstance(a, ast.Assign) and len(a.targets) == 1
+                      and isinstance(a.targets[0], ast.Name) and isinstance(a.value, ast.Call) and (dotted(a.value.func) or '').endswith('deepcopy')}
+            for call in walk_no_nested(dc.node):
+                if not (isinstance(call, ast.Call) and (norm(call.func) in (c.name, 'type(self)', 'self.__class__', 'cls') or
+                                                        any(norm(call.func) == k.name for k in c.mro))):
+                    continue
+                for a in [*call.args, *[k.value for k in call.keywords]]:
+                    sa = self_attr(a)
+                    if sa and sa not in ('_field', '_inner_field', '_separators', '_separators_before'):
+                        owner_bad = (norm(call)[:80], sa)
+            if owner_bad:
+                ctx.fail(rid, site, f'constructor given self.{owner_bad[1]}',
+                         f'{c.name}.__deepcopy__ builds the copy with `{owner_bad[0]}`: self.{owner_bad[1]} is state of the original (its owning model / '
+                         f'parent), not a copy and not schema -- the copied wrapper keeps pointing into the original document (comment claiming '
+                         f'through it uses the original owner\'s boundaries, edits reach the wrong tree)', dc.where)
+                continue
             if not shallow:
-                ctx.ok(rid, site, 'no shallow copy of self')
+                ctx.ok(rid, site, 'no shallow copy of self; constructor arguments are copies or schema')
                 continue
             cname = shallow[0].targets[0].id          # type: ignore[attr-defined]
             containers: set[str] = set()
